@@ -483,3 +483,25 @@ Theorem hsm_no_internal_error hm ev c e p f tr f' r :
 Proof.
   intros NR WF D G H. destruct (trigger_total hm ev c e NR WF (dst_ok_DST hm D) _ _ _ _ _ G H) as (G' & X & _). auto.
 Qed.
+
+(* ---------- whole histories ---------- *)
+Fixpoint run_seq (hm : hmachine) (ev : env) (c : ctx) (es : list event) (p : nat) (f : forest)
+  : list (exn + bool) * forest :=
+  match es with
+  | [] => ([], f)
+  | e :: r => let '(tr, f', res) := trigger_event hm ev c e p f in
+              let (l, f'') := run_seq hm ev c r (p + length tr) f' in (res :: l, f'')
+  end.
+
+Definition benign (r : exn + bool) : Prop := (exists b, r = inr b) \/ r = inl MachineError \/ r = inl AttributeError.
+
+Theorem history_total hm ev c : (forall cb q, r_raise (ev cb q) = None) -> wf_defs hm = true -> dst_ok hm = true ->
+  forall es p f, good hm f -> Forall benign (fst (run_seq hm ev c es p f)) /\ good hm (snd (run_seq hm ev c es p f)).
+Proof.
+  intros NR WF D. induction es as [|e r IH]; intros p f G; cbn [run_seq]; [split; [constructor|exact G]|].
+  destruct (trigger_event hm ev c e p f) as [[tr f'] res] eqn:T.
+  destruct (hsm_no_internal_error hm ev c e p f tr f' res NR WF D G T) as [G' X].
+  specialize (IH (p + length tr) f' G'). destruct (run_seq hm ev c r (p + length tr) f') as [l f'']. cbn [fst snd] in *.
+  destruct IH as [IH1 IH2]. split; [|exact IH2]. constructor; [|exact IH1].
+  destruct res as [x|b]; [|left; eauto]. destruct (X x eq_refl) as ([-> | ->] & _); right; auto.
+Qed.
